@@ -8,6 +8,7 @@ surface for C16); (3) the property's monitors — direct statements of the prope
 A monitor failure is a VIOLATION with a replayable case; a broken proof or a model/implementation disagreement without
 a monitor failure is a VIOLATION ending in `no-failing-input-found`."""
 import collections
+import concurrent.futures
 import glob
 import hashlib
 import json
@@ -25,12 +26,13 @@ PROPS = ["C16", "C17", "C18", "C19"]
 
 CLASSES_ALL = ["TaskPool", "SimpleTaskPool", "PlusPool", "SimplePlus"]
 BUDGET = {
-    "C16": {"quick": 16, "thorough": 200},          # extra seeded (class, width, pool name) sweeps beside the fixed grid
-    "C17": {"quick": 320, "thorough": 6000},       # random scripts (beside the complete option-subset sweep)
-    "C18": {"quick": 260, "thorough": 4000},
-    "C19": {"quick": 64, "thorough": 700},
+    "C16": {"quick": 40, "thorough": 200},          # extra seeded (class, width, pool name) sweeps beside the fixed grid
+    "C17": {"quick": 1000, "thorough": 6000},       # random scripts (beside the complete option-subset sweep)
+    "C18": {"quick": 700, "thorough": 4000},
+    "C19": {"quick": 140, "thorough": 700},
 }
 CLI_CLIENTS = {"quick": 5, "thorough": 60}
+DEADLINE = {"quick": 420, "thorough": 2400}      # whole sweep of one check; exceeded = harness trouble (exit 2)
 
 
 # ------------------------------------------------------------------------------------------------ files
@@ -193,6 +195,37 @@ def run_case(prop, case):
     raise ValueError(prop)
 
 
+CASE_LIMIT = {"C16": 120, "C17": 150, "C18": 150, "C19": 240}
+
+
+class watchdog:
+    """a case that neither finishes nor yields to its own bounded waits (a busy loop in Python code) must end as a harness
+    error, never as a hang: SIGALRM reports the case and ends the worker process; the parent sees a broken pool (exit 2)"""
+
+    def __init__(self, seconds, name, case):
+        self.seconds, self.name, self.case = seconds, name, case
+
+    def _fire(self, signum, frame):
+        import sys
+        import traceback
+        where = "".join(traceback.format_stack(frame)[-6:])
+        sys.__stderr__.write(f"harness timeout: case {self.name} still running after {self.seconds} s: "
+                             f"{json.dumps(self.case)[:1500]}\n{where}\n")
+        sys.__stderr__.flush()
+        os._exit(70)
+
+    def __enter__(self):
+        import signal
+        self.old = signal.signal(signal.SIGALRM, self._fire)
+        signal.alarm(self.seconds)
+
+    def __exit__(self, *exc):
+        import signal
+        signal.alarm(0)
+        signal.signal(signal.SIGALRM, self.old)
+        return False
+
+
 def fail_key(f):
     return (f["kind"], f.get("monitor") or f.get("what"))
 
@@ -206,7 +239,8 @@ def work(job):
         todo.append((f"gen:{seed}:{i}", gen_case(prop, rng, tier, i)))
     for name, case in todo:
         try:
-            fails, st, samples, keys = run_case(prop, case)
+            with watchdog(CASE_LIMIT[prop], name, case):
+                fails, st, samples, keys = run_case(prop, case)
         except Exception as e:          # keep what crosses the process boundary picklable
             import traceback
             raise RuntimeError(f"harness error on case {name}: {type(e).__name__}: {e}\n{traceback.format_exc()[-1500:]}") from None
@@ -281,15 +315,27 @@ def run(prop, tier, seed, jobs, proof, out):
     for k in range(chunks):
         jobl.append((prop, seed, tier, k * per, max(0, min(per, total - k * per)), extra[k::chunks]))
     agg = {"cases": 0, "stats": collections.Counter(), "failures": [], "keys": set(), "samples": [], "digests": set()}
-    with mp.Pool(min(jobs, chunks)) as pool:
-        for s in pool.imap_unordered(work, jobl):
-            agg["cases"] += s["cases"]
-            agg["stats"].update(s["stats"])
-            agg["failures"].extend(s["failures"])
-            agg["keys"] |= s["keys"]
-            agg["digests"] |= s["digests"]
-            if len(agg["samples"]) < 3:
-                agg["samples"].extend(s["samples"])
+    deadline = DEADLINE[tier]
+    ex = concurrent.futures.ProcessPoolExecutor(max_workers=min(jobs, chunks), mp_context=mp.get_context("fork"))
+    try:
+        futs = [ex.submit(work, j) for j in jobl]
+        try:
+            for fu in concurrent.futures.as_completed(futs, timeout=deadline):
+                s = fu.result()
+                agg["cases"] += s["cases"]
+                agg["stats"].update(s["stats"])
+                agg["failures"].extend(s["failures"])
+                agg["keys"] |= s["keys"]
+                agg["digests"] |= s["digests"]
+                if len(agg["samples"]) < 3:
+                    agg["samples"].extend(s["samples"])
+        except concurrent.futures.TimeoutError:
+            raise W.HarnessTimeout(f"{prop}: the case workers did not finish within {deadline} s")
+    finally:
+        for p_ in list(getattr(ex, "_processes", {}).values()):
+            if p_.is_alive():
+                p_.kill()
+        ex.shutdown(wait=False, cancel_futures=True)
 
     # ---- known findings: replay each witness on the real code
     known_by_monitor = {}
